@@ -9,7 +9,7 @@
  * harnesses replay every entry through their ordinary oracles, so a wrong corpus entry can cost coverage, never raise an
  * alarm.
  *
- *   gcc -O2 -pthread -o mine mine.c model.c && ./mine <task> <log2 candidates> <threads>   >> pinned/special.txt
+ *   gcc -O2 -pthread -o mine mine.c model.c && ./mine <task> <log2 candidates> <threads> [<first candidate>]   >> pinned/special.txt
  *   tasks: hashmid hashfin hmacin pbkdf2 aead128 aead192 aead256 sivforge128 sivforge192 sivforge256 siv128 siv192 siv256 prng
  */
 #include "model.h"
@@ -20,7 +20,7 @@
 
 static pthread_mutex_t mu = PTHREAD_MUTEX_INITIALIZER;
 static const char *task;
-static unsigned long long per_thread;
+static unsigned long long per_thread, start;      /* candidates per thread; first candidate (to continue an earlier run) */
 static int nthreads;
 #define MAXPAT 96
 static int hits[MAXPAT];
@@ -70,7 +70,7 @@ static void *worker(void *arg)
     for (i = 0; i < 12; ++i) n[i] = (uint8_t)(0xB0 + i + tid);
     if (!strcmp(task, "hashmid") || !strcmp(task, "hashfin")) {
         int fin = task[4] == 'f';
-        for (c = 0; c < per_thread; ++c) {
+        for (c = start; c < start + per_thread; ++c) {
             uint8_t msg[17];
             uint32_t w[8];
             int pat;
@@ -97,7 +97,7 @@ static void *worker(void *arg)
         int siv = task[0] == 's';
         uint8_t m[16], cbuf[24];
         for (i = 0; i < 16; ++i) m[i] = (uint8_t)(0x40 + i * 5 + tid);
-        for (c = 0; c < per_thread; ++c) {
+        for (c = start; c < start + per_thread; ++c) {
             uint32_t w[6];
             int pat;
             for (i = 0; i < 8; ++i) n[4 + i] = (uint8_t)(c >> (8 * i));
@@ -115,7 +115,7 @@ static void *worker(void *arg)
         uint8_t m[8] = {'p', 'a', 'y', ' ', 0, 0, 0, 100}, pkt[16], body[8], rec[8], t2[8];
         m[4] = (uint8_t)tid;
         m_siv_encrypt(ks, pkt, m, 8, ad, 4, n, key);
-        for (c = 1; c <= per_thread; ++c) {
+        for (c = start + 1; c <= start + per_thread; ++c) {
             uint32_t d0, d1;
             int pat = -1;
             for (i = 0; i < 8; ++i) body[i] = pkt[i] ^ (uint8_t)(c >> (8 * i));
@@ -142,7 +142,7 @@ static void *worker(void *arg)
         memset(blk, 0x36, 64); for (i = 0; i < 16; ++i) blk[i] ^= k16[i];
         m_hash_init(&h0); m_hash_update(&h0, blk, 64);
         msg[0] = 0x5A; m_hash_update(&h0, msg, 1);      /* forces the fourth ipad block to be compressed once, not per candidate */
-        for (c = 0; c < per_thread; ++c) {
+        for (c = start; c < start + per_thread; ++c) {
             uint32_t w[8];
             int pat;
             for (i = 0; i < 7; ++i) msg[1 + i] = (uint8_t)(c >> (8 * i));
@@ -165,7 +165,7 @@ static void *worker(void *arg)
         m_hash_init(&hi); m_hash_update(&hi, blk, 64);
         memset(blk, 0x5C, 64); for (i = 0; i < 8; ++i) blk[i] ^= pw[i];
         m_hash_init(&ho); m_hash_update(&ho, blk, 64);
-        for (c = 0; c < per_thread; c += 47) {
+        for (c = start - start % 47; c < start + per_thread; c += 47) {
             uint8_t salt[24], U[32], T[32], in[32];
             m_hash_t h;
             int sl = snprintf((char *)salt, sizeof salt, "salt-%02x%08llx", tid, c / 47), j;
@@ -191,7 +191,7 @@ static void *worker(void *arg)
             }
         }
     } else if (!strcmp(task, "prng")) {
-        for (c = 0; c < per_thread; c += 48) {
+        for (c = start - start % 48; c < start + per_thread; c += 48) {
             m_drbg_t d;
             uint8_t seed[32], custom[16], blk[32], prev[32], hb[33], H[32];
             int b, cl;
@@ -244,6 +244,7 @@ int main(int argc, char **argv)
     if (nthreads < 1 || nthreads > 64) nthreads = 16;
     if (m_use_fast_perm(1)) { fprintf(stderr, "batch permutation disagrees with the literal one\n"); return 2; }
     per_thread = (1ULL << lg) / (unsigned)nthreads;
+    if (argc > 4) start = strtoull(argv[4], NULL, 0);
     for (i = 0; i < nthreads; ++i) pthread_create(&th[i], NULL, worker, (void *)(size_t)i);
     for (i = 0; i < nthreads; ++i) pthread_join(th[i], NULL);
     return 0;
